@@ -303,14 +303,24 @@ def r_merge(repo, tier):
     # the other map is *read at a location* (m[loc]: locations are expressed in the input state), never *applied* to it
     # (m(x) evaluates x -- including the address -- in m's post-state)
     nreads = 0
+    scopes_ = [(fn, set(maps), f.dqual)]
+    modm = repo.mod(MAPPER)
     for c in ast.walk(fn):
-        if isinstance(c, ast.Subscript) and isinstance(c.value, ast.Name) and c.value.id in maps and isinstance(c.ctx, ast.Load):
-            nreads += 1
-        if isinstance(c, ast.Call) and isinstance(c.func, ast.Name) and c.func.id in maps:
-            out.report(MAPPER, f.dqual, "applies %s" % norm(c)[:70], c.lineno, "merge fetches the other map's value with the call form `%s`: mapper.__call__ evaluates the location's address in that map's post-state, while map locations are expressed in the input state (the index form `%s[...]` used by the sibling fetches reads the location)" % (norm(c)[:70], c.func.id))
-    out.inst("%s::location-reads" % f.key, {"index_form_reads": nreads, "maps": maps})
-    if nreads < 4:
-        raise AnalysisError("R-XFER: merge() no longer reads the other map by location 4 times (%d)" % nreads)
+        if isinstance(c, ast.Call) and isinstance(c.func, ast.Name) and c.func.id in modm.functions and c.func.id != "merge":
+            g = modm.functions[c.func.id]
+            ps = g.params()
+            recv = {ps[k] for k, a in enumerate(c.args) if isinstance(a, ast.Name) and a.id in maps and k < len(ps)}
+            if recv:
+                scopes_.append((g.node, recv, g.dqual))
+    for node, names, where in scopes_:
+        for c in ast.walk(node):
+            if isinstance(c, ast.Subscript) and isinstance(c.value, ast.Name) and c.value.id in names and isinstance(c.ctx, ast.Load):
+                nreads += 1
+            if isinstance(c, ast.Call) and isinstance(c.func, ast.Name) and c.func.id in names:
+                out.report(MAPPER, where, "applies %s" % norm(c)[:70], c.lineno, "merge fetches the other map's value with the call form `%s`: mapper.__call__ evaluates the location's address in that map's post-state, while map locations are expressed in the input state (the index form `%s[...]` used by the sibling fetches reads the location)" % (norm(c)[:70], c.func.id))
+    out.inst("%s::location-reads" % f.key, {"index_form_reads": nreads, "maps": maps, "scopes": [w for _, _, w in scopes_]})
+    if nreads < 1:
+        raise AnalysisError("R-XFER: merge() no longer reads the other map by location (anchor changed)")
     # pointer expansion: every mem(...) built from elements of <loc>.base.l uses <loc>.seg and <loc>.disp
     m = repo.mod(MAPPER)
     nexp = 0
